@@ -104,11 +104,15 @@ def run(chk):
         if d == 3:  # lists shorter than the dimension are filled with their last entry
             per_opts = per_opts + [[12.0, 20.0]]
             mode_opts = mode_opts + [[4, 6]]
+            # rotations with exactly zero angles among non-zero ones (selected settings only)
+            ang_opts = ang_opts + [[0.6, 0.0, -0.5], [0.0, 0.0, 0.8], [0.0, 0.7, 0.3]]
         for cls in models:
             for anis in anis_opts:
                 for ang in ang_opts:
                     for per in per_opts:
                         for mo in mode_opts:
+                            if d == 3 and ang in ang_opts[2:] and not (anis in anis_opts[1:3] and per in per_opts[1:3] and mo in mode_opts[:2]):
+                                continue
                             for s in ([5, 20201 + seed] if tier == "quick" else [5, 20201 + seed, 77]):
                                 cases.append({"cls": cls, "dim": d, "anis": anis, "angles": ang, "period": per, "mode_no": mo, "seed": s, "len_scale": 0.2 * (per if np.isscalar(per) else per[0]) * (1 + 0.1 * g[2])})
     cs, res = chk.run("periodic", case_periodic, cases, rule="model x dim x anisotropy (1, <1, >1) x rotation (none / generic) x period (scalar, per axis, list shorter than dim) x even mode counts (scalar, per axis, list shorter than dim) x seeds; shifts by +-1, +-2 periods along every main axis at lattice and off-grid points")
